@@ -50,7 +50,7 @@ UNITS = {'c17_escape_string': (['C17'], escape_unit)}
 SEARCH = {'c17_escape_string': ['c17_escape']}
 
 
-from vx.unit import WriteMacro  # noqa: E402
+from vx.unit import WriteMacro, ClosureMatch  # noqa: E402
 
 R = 'src/registry/mod.rs'
 
@@ -118,7 +118,7 @@ fn escape_string(s: &str) -> (r: String) ensures gql_string_decode(r@) == Some(s
     }, Deprecation::Deprecated { reason: None } => { assert(n.skip(o.len() as int) =~= " @deprecated"@); assert(n.take(o.len() as int) =~= o); }, _ => {} }
 }''')])
     u.extract_fn(F, ['fn write_input_value'],
-                 rewrites=[WriteMacro(count=2, infallible=True), Sub('_ = {', 'let _ = {', count='*', rule='R-stmt')],
+                 rewrites=[ClosureMatch('opt.filter', count='*'), WriteMacro(count=2, infallible=True), Sub('_ = {', 'let _ = {', count='*', rule='R-stmt')],
                  head_proof='proof { @REVEALS@ }',
                  ensures=['''({
             let o = old(sdl)@; let n = final(sdl)@;
